@@ -300,6 +300,16 @@ cleanup:
  *
  */
 int KSI_DataHash_fromImprint(KSI_CTX *ctx, const unsigned char *imprint, size_t imprint_length, KSI_DataHash **hash) {
+	KSI_ERR_clearErrors(ctx);
+	if (imprint == NULL) {
+		KSI_pushError(ctx, KSI_INVALID_ARGUMENT, NULL);
+		return KSI_INVALID_ARGUMENT;
+	}
+	/* An empty imprint has no algorithm id octet to look at. */
+	if (imprint_length == 0) {
+		KSI_pushError(ctx, KSI_INVALID_FORMAT, "Imprint is empty.");
+		return KSI_INVALID_FORMAT;
+	}
 	return KSI_DataHash_fromDigest(ctx, *imprint, imprint + 1, imprint_length - 1, hash);
 }
 
